@@ -167,21 +167,25 @@ Theorem C12_total_core_match_nocreate :
 Proof. exact safe_pm_nocreate. Qed.
 Print Assumptions C12_total_core_match_nocreate.
 
-(* PARTIAL with Create (owner lemma): returns when every list-selector value matches itself *)
-Theorem C12_match_create_no_diverge_partial :
-  forall parse enc nonstr (k : kind) fuel (path : list string),
-    MatchTotalProofs.sel_then_fields path = true -> MatchTotalProofs.self_matching parse enc path ->
-    forall n, Match.pm parse enc nonstr (Some k) (S (S fuel)) path n <> Diverge.
-Proof. exact MatchTotalProofs.pm_create_total. Qed.
-Print Assumptions C12_match_create_no_diverge_partial.
+(* FULL with Create, since /repo fix a578c9a (owner theorem MatchTotalProofs.pm_total): doSeq's second search
+   that finds nothing is an error, so two units of fuel suffice for every path, document and Create kind *)
+Theorem C12_total_core_match_create :
+  forall parse enc nonstr create fuel path n,
+    safe (Match.pm parse enc nonstr create (S (S fuel)) path n).
+Proof.
+  exact (fun parse enc nonstr create fuel path n =>
+           conj (pm_no_panic parse enc nonstr create (S (S fuel)) path n)
+                (MatchTotalProofs.pm_total parse enc nonstr create fuel path n)).
+Qed.
+Print Assumptions C12_total_core_match_create.
 
-(* REFUTED with Create in general = finding hang:kyaml/yaml PathMatcher.doSeq (F6): for EVERY fuel the
-   model runs out of it on spec.containers.[name=^zz$].image (owner lemma) *)
-Theorem C12_refuted_match_create_diverges :
-  forall fuel, Match.pm MatchProofs.zz_parse node_value (fun _ => false) (Some KScalar) fuel
-                        MatchProofs.zz_path MatchProofs.zz_doc = Diverge.
-Proof. exact MatchProofs.match_diverges_lemma. Qed.
-Print Assumptions C12_refuted_match_create_diverges.
+(* regression of finding F6 (hang in PathMatcher.doSeq, repaired by a578c9a): the former witness
+   spec.containers.[name=^zz$].image with Create now returns an error at every fuel >= 2 (owner lemma) *)
+Theorem C12_match_create_former_hang_is_error :
+  forall fuel, Match.pm MatchProofs.zz_parse node_value (fun _ => false) (Some KScalar) (S (S fuel))
+                        MatchProofs.zz_path MatchProofs.zz_doc = Err.
+Proof. exact MatchProofs.match_unmatched_create_is_error. Qed.
+Print Assumptions C12_match_create_former_hang_is_error.
 
 (* FULL. the in-memory file system (Fs/MemFs.v, C05) and symlink resolution of the on-disk one
    (Fs/DiskFs.v: explicit budget of 255 links, exhaustion is the ELOOP error - owner lemma) *)
@@ -331,8 +335,8 @@ Print Assumptions C12_total_core_nameref_transform.
 (* FULL since /repo fix d64b8e2 (owner theorem re-exported). the formatter (Yaml/Fmt.v, C20) returns Ok on every
    node, schema and path, whatever the sort function; the model has no fuel, so it cannot Diverge *)
 Theorem C12_total_core_fmt_node :
-  forall nonstr kind api srt n s p,
-    exists n', Fmt.fmt_node nonstr srt kind api s p n = Ok n'.
+  forall nonstr hastype kind api srt n s p,
+    exists n', Fmt.fmt_node nonstr hastype srt kind api s p n = Ok n'.
 Proof. exact FmtProofs.fmt_no_panic. Qed.
 Print Assumptions C12_total_core_fmt_node.
 
